@@ -89,6 +89,7 @@ type options struct {
 	concs    string // all | rotate
 	reload   string // none | rotate | all : reach the configuration through a hot reload from a different one
 	adminN   int    // number of configurations whose admin rows are executed (0 = all)
+	adminOff int    // rotation offset of that choice
 }
 
 var allMounts = []string{"bare", "prefix", "shared"}
@@ -110,10 +111,11 @@ func main() {
 	variants := flag.String("variants", "rotate", "all | rotate")
 	reload := flag.String("reload", "none", "none | rotate | all")
 	adminN := flag.Int("admin-cfgs", 0, "configurations whose admin rows are run (0 = all)")
+	adminOff := flag.Int("admin-offset", 0, "rotation offset for -admin-cfgs")
 	workers := flag.Int("workers", 8, "parallel instances")
 	one := flag.String("one", "", "replay: JSON of one event (row, mount, variant, conc, adminep)")
 	flag.Parse()
-	opt := options{seed: *seed, scratch: *scratch, mounts: *mounts, variants: *variants, concs: *concs, reload: *reload, adminN: *adminN}
+	opt := options{seed: *seed, scratch: *scratch, mounts: *mounts, variants: *variants, concs: *concs, reload: *reload, adminN: *adminN, adminOff: *adminOff}
 
 	if *one != "" {
 		var e Event
@@ -167,7 +169,7 @@ func main() {
 		}
 		off := 0
 		if len(l) > 0 {
-			off = int(opt.seed) % len(l)
+			off = (int(opt.seed) + opt.adminOff) % len(l)
 			if off < 0 {
 				off = -off
 			}
